@@ -98,6 +98,7 @@ void WorldQ::setup() {
       scripts[op.gets("rcpt")] = v;
     }
   }
+  for (auto &op : plan->ops.a) if (op.gets("op") == "junk") junk[op.geti("chan", 0) ? 1 : 0].push_back({(int)op.geti("after", 0), op.gets("bytes")});
   for (auto &f : plan->faults) if (f.actor.compare(0, 10, "qmail-send") == 0 || f.actor.compare(0, 11, "qmail-clean") == 0)
     if (f.kind == "error" || f.kind == "short" || f.kind == "eintr") io_faults_in_daemon = true;
 }
@@ -110,7 +111,16 @@ int WorldQ::spawner_stub(int chan) {
   std::string inbuf;
   struct Pending { int64_t at; int delnum; std::string bytes; bool wellformed; std::string text; bool die; uint64_t order; };
   std::vector<Pending> pend; uint64_t ord = 0;
+  size_t junk_idx = 0; int cmds_seen = 0;
   for (;;) {
+    // hostile bytes on the report channel (C18c): record-aligned junk; a record that happens to name a delivery in flight
+    // IS a report as far as the daemon can tell, and the ghost is told so
+    while (junk_idx < junk[chan].size() && cmds_seen >= junk[chan][junk_idx].first) {
+      const std::string &jb = junk[chan][junk_idx++].second;
+      size_t joff = 0; while (joff < jb.size()) { ssize_t w = kk->sys_write(1, jb.data() + joff, jb.size() - joff); if (w <= 0) return 0; joff += (size_t)w; }
+      kk->probe("junk_report_bytes", jb.size()); kk->note_fault("peer_garbage");
+
+    }
     // send due reports (in due-time order, ties by arrival)
     for (;;) {
       size_t best = pend.size();
@@ -120,7 +130,7 @@ int WorldQ::spawner_stub(int chan) {
       if (p.die) return 0;   // spawner dies with this delivery outstanding
       size_t off = 0;
       while (off < p.bytes.size()) { ssize_t w = kk->sys_write(1, p.bytes.data() + off, p.bytes.size() - off); if (w <= 0) return 0; off += (size_t)w; }
-      on_report(chan, p.delnum, p.text, p.wellformed);   // a report exists once its last byte is in the pipe (no yield between the write's effect and here)
+      // (the ghost learns about reports when the daemon reads them: see on_send_event)
     }
     int64_t next = -1;
     for (auto &p : pend) if (next < 0 || p.at < next) next = p.at;
@@ -142,7 +152,7 @@ int WorldQ::spawner_stub(int chan) {
       size_t c = inbuf.find('\0', b + 1); if (c == std::string::npos) break;
       SpawnCmd cmd; cmd.chan = chan; cmd.delnum = (unsigned char)inbuf[0]; cmd.messid = inbuf.substr(1, a - 1);
       cmd.sender = inbuf.substr(a + 1, b - a - 1); cmd.recip = inbuf.substr(b + 1, c - b - 1); cmd.t = kk->clock; cmd.num = 0;
-      inbuf.erase(0, c + 1);
+      inbuf.erase(0, c + 1); cmds_seen++;
       Attempt at; at.v = default_verdict; at.text = "default";
       auto it = scripts.find(cmd.recip);
       if (it != scripts.end()) { int &no = attempt_no[cmd.recip]; if ((size_t)no < it->second.size()) at = it->second[(size_t)no]; no++; }
@@ -213,7 +223,7 @@ void WorldQ::driver() {
     std::string o = op.gets("op");
     if (o == "boot") op_boot();
     else if (o == "inject") op_inject(op);
-    else if (o == "script") {}
+    else if (o == "script" || o == "junk") {}
     else if (o == "plant") plant(op);
     else if (o == "sleep") k->block([] { return false; }, k->clock + op.geti("s", 1), false);
     else if (o == "yield") { for (int64_t i = 0; i < op.geti("n", 1); i++) k->yield_point(); }
